@@ -4233,6 +4233,14 @@ func (l *Lowerer) lowerAssign(assign *parser.AssignStmt, target *[]ir.Statement)
 		// Must happen BEFORE Splat to match Rust expression ordering:
 		// concretize → Load → Splat → Binary
 		loaded := l.applyLoadRule(pointer)
+		if loaded == pointer {
+			// The store target is always a reference; kinds applyLoadRule does not
+			// recognise as one (a pointer-typed function argument: `*p += 1u`) still
+			// have to be loaded to obtain the current value.
+			loaded = l.addExpression(ir.Expression{
+				Kind: ir.ExprLoad{Pointer: pointer},
+			})
+		}
 		// Splat scalar RHS to match vector LHS (e.g., a += 1.0 where a: vec2<f32>).
 		value = l.splatScalarToMatchPointer(pointer, value)
 		value = l.addExpression(ir.Expression{
